@@ -87,7 +87,9 @@ func (fc *FnCtx) havocMap(st *State, m *Term, mt *types.Map) {
 	ks := fc.mapKeySort(mt)
 	fc.setHeap(st, pn, Store(p, m, fc.sc.Fresh("hvP", ArrSort(ks, SBool))))
 	for _, v := range fc.mapVs(st, mt) {
-		fc.setHeap(st, v.name, Store(v.h, m, fc.sc.Fresh("hvV", ArrSort(ks, v.sort))))
+		row := fc.sc.Fresh("hvV", ArrSort(ks, v.sort))
+		fc.wfHeapFact(row, fc.hvBound)
+		fc.setHeap(st, v.name, Store(v.h, m, row))
 	}
 	c, cn := fc.mapC(st)
 	fc.setHeap(st, cn, Store(c, m, fc.sc.Fresh("hvC", SInt)))
@@ -103,6 +105,8 @@ func (fr *Frame) allocMap(st *State, mt *types.Map) *Term {
 	fc.setHeap(st, cn, Store(c, obj, IntLit(0)))
 	// make sure value heaps exist
 	fc.mapVs(st, mt)
+	fc.sc.DeclFun("maptype", []Sort{SInt}, SInt)
+	fc.sc.Assert(Eq(app(SInt, "maptype", obj), IntLit(int64(fc.eng.ti.TagOf(mt)))))
 	return obj
 }
 
@@ -178,7 +182,13 @@ func (fr *Frame) execRange(in *ssa.Range, st *State) {
 	case *types.Map:
 		ks := fc.mapKeySort(xt)
 		st.ghosts[rangeKey(in)] = ConstArr(ArrSort(ks, SBool), TFalse)
+		st.ghosts["seencnt:"+rangeKey(in)] = IntLit(0)
 		fr.env[in] = fr.val(in.X)
+		// remember the key set and cardinality at the start of the iteration (for the count facts)
+		m := fr.val(in.X).T
+		p, _ := fc.mapP(st, xt)
+		c, _ := fc.mapC(st)
+		fr.rangeStart[in] = [2]*Term{fc.sc.Define("row0", Select(p, m)), fc.sc.Define("card0", Ite(Eq(m, IntLit(0)), IntLit(0), Select(c, m)))}
 		fr.guardCheck(st, in, in.X, false)
 	default:
 		unsup("range over %s", in.X.Type())
@@ -208,6 +218,16 @@ func (fr *Frame) execNext(in *ssa.Next, st *State) {
 	fc.assume(st, Implies(Not(ok), mk(SBool, fmt.Sprintf("(forall ((k!q %s)) (! (=> (and (not (= %s 0)) (select %s k!q)) (select %s k!q)) :pattern ((select %s k!q)) :pattern ((select %s k!q))))",
 		ks, m.S, row.S, seen.S, row.S, seen.S))))
 	st.ghosts[key] = fc.sc.Define("seen", Ite(ok, Store(seen, k0, TTrue), seen))
+	// number of keys visited so far: while the key set is the one the iteration started with, it is
+	// below the cardinality, and equal to it when the iteration is exhausted
+	if rs, have := fr.rangeStart[rng]; have {
+		cnt := st.ghosts["seencnt:"+key]
+		if cnt != nil {
+			same := Eq(row, rs[0])
+			fc.assume(st, And(Ge(cnt, IntLit(0)), Implies(same, And(Implies(ok, Lt(cnt, rs[1])), Implies(Not(ok), Eq(cnt, rs[1]))))))
+			st.ghosts["seencnt:"+key] = fc.sc.Define("seencnt", Ite(ok, Add(cnt, IntLit(1)), cnt))
+		}
+	}
 	tup := in.Type().(*types.Tuple)
 	kv := scalar(k0)
 	fc.assume(st, Implies(ok, fc.typeFacts(st, kv, mt.Key())))
